@@ -80,6 +80,8 @@ class Check:
         return 1
 
     def report(self):
+        # all minimisation work of this run shares one wall-clock allowance
+        simdrv.MIN_DEADLINE[0] = time.time() + max(90.0, 0.6 * self.budget)
         nviol = 0
         rc = 0
         known_lines = {}
@@ -96,12 +98,13 @@ class Check:
             k1, h1 = self.reproduce(f["replay"])
             k2, h2 = self.reproduce(f["replay"])
             if k1 is None or k2 is None or key_str(k1) != key_str(f["key"]) or key_str(k2) != key_str(f["key"]) or h1 != h2:
-                print("HARNESS-NONDETERMINISM property=%s finding=%s first=%s/%s second=%s/%s" % (
-                    self.prop, key_str(f["key"]), k1 and key_str(k1), h1, k2 and key_str(k2), h2))
+                nd = simdrv.save_replay(self.prop, "nondet_" + hashlib.sha1(key_str(f["key"]).encode()).hexdigest()[:8], f["replay"])
+                print("HARNESS-NONDETERMINISM property=%s finding=%s first=%s/%s second=%s/%s replay=%s" % (
+                    self.prop, key_str(f["key"]), k1 and key_str(k1), h1, k2 and key_str(k2), h2, nd))
                 rc = max(rc, 2)
                 continue
             g = f
-            if self.do_minimise:
+            if self.do_minimise and time.time() < simdrv.MIN_DEADLINE[0]:
                 try:
                     g = self.minimise(f) or f
                 except Exception as e:  # minimisation must never lose a finding
